@@ -116,6 +116,20 @@ def check_cross(ck, F, rule, crates, floor):
                     if oi < len(gs) and gs[oi] and gs[oi][0] in OFF_GETTERS and gs[oi][1] != obj:
                         judged = True
                         bad = "argument %d is the offset of a different object than the buffer in argument %d" % (oi, bi)
+                    # the offset slot of a buffer obtained from an object with a bit offset must be computed from that object's offset
+                    if oi < len(t["args"]):
+                        lo = op_local(t["args"][oi])
+                        derived = False
+                        if lo is not None:
+                            seen_, calls_ = b.back_slice(lo)
+                            for _, c_ in calls_:
+                                if flow.norm(callee(c_) or "").split("::")[-1] in OFF_GETTERS and len(c_["args"]) == 1:
+                                    rl = op_local(c_["args"][0])
+                                    if rl is not None and obj_root(b, rl) == obj:
+                                        derived = True
+                        judged = True
+                        if not derived and not bad:
+                            bad = "the bit offset passed for the buffer in argument %d (argument %d) is not computed from that object's offset()" % (bi, oi)
                 if bad:
                     ck.bad(rule, key, "%s: %s" % (fn["id"], bad), b.loc(bb))
                 elif judged:
